@@ -8,6 +8,12 @@ import (
 	"sort"
 
 	"github.com/ovh/kmip-go/ttlv"
+
+	// The harness binary also links the client and the server packages: link them here too, so that a
+	// registration done in one of their init functions is in the regenerated tables as well (the live dump of
+	// the harness and Gen.Registry must describe the same process-wide registries).
+	_ "github.com/ovh/kmip-go/kmipclient"
+	_ "github.com/ovh/kmip-go/kmipserver"
 )
 
 // Generated module KmipModel.Gen.Registry (namespace Kmip.Gen) and the pinned reference
@@ -149,9 +155,10 @@ func byNameElems(l []entry, width int) []elem {
 	return res
 }
 
-// renderRegistry renders a registry module. withTypes adds the Go-type tables (Gen only: Go identifiers
-// are not part of the pinned KMIP registry).
-func renderRegistry(header, namespace string, r regData, withTypes bool) []byte {
+// renderRegistry renders a registry module. The Go-type tables ttlv.enums / ttlv.bitmasks (WHICH table a typed
+// value is written and read with) are part of both modules; ttlv.tagByType (the default tag of a type) is
+// Gen only: Props/C17 ties it to the two others (`typesWF`), so the pin needs no copy of it.
+func renderRegistry(header, namespace string, r regData, withTypeTags bool) []byte {
 	var w bytes.Buffer
 	w.WriteString(header)
 	fmt.Fprintf(&w, "namespace %s\n\n", namespace)
@@ -196,11 +203,11 @@ func renderRegistry(header, namespace string, r regData, withTypes bool) []byte 
 	}
 	emitList(&w, "every registered bit mask: (tag, flag names in bit order, name ↦ flag).", "masks", "List (Nat × List Nat × List (Nat × Nat))", idx)
 
-	if withTypes {
+	if withTypeTags {
 		emitList(&w, "ttlv.tagByType: Go type (packed `reflect.Type.String()`) ↦ default tag.", "typeTags", pairTy, byNameElems(r.TypeTags, 6))
-		emitList(&w, "ttlv.enums: Go enumeration type ↦ tag.", "enumTypes", pairTy, byNameElems(r.EnumTypes, 6))
-		emitList(&w, "ttlv.bitmasks: Go bit-mask type ↦ tag.", "maskTypes", pairTy, byNameElems(r.MaskTypes, 6))
 	}
+	emitList(&w, "ttlv.enums: Go enumeration type ↦ tag.", "enumTypes", pairTy, byNameElems(r.EnumTypes, 6))
+	emitList(&w, "ttlv.bitmasks: Go bit-mask type ↦ tag.", "maskTypes", pairTy, byNameElems(r.MaskTypes, 6))
 	fmt.Fprintf(&w, "end %s\n", namespace)
 	return w.Bytes()
 }
@@ -231,7 +238,7 @@ const pinHeader = `/-
 -/
 `
 
-// writePin writes the pinned registry (same representation, namespace Kmip.Pinned, no Go-type tables).
+// writePin writes the pinned registry (same representation, namespace Kmip.Pinned, without ttlv.tagByType).
 func writePin(path string, force bool) error {
 	if _, err := os.Stat(path); err == nil && !force {
 		return fmt.Errorf("%s exists: the pin is hand-maintained, use -force to overwrite and review the diff", path)
